@@ -4,14 +4,134 @@ import Mathlib.Tactic.FieldSimp
 import Mathlib.Tactic.Ring
 import Mathlib.Tactic.LinearCombination
 import Mathlib.Tactic.Positivity
+import Mathlib.Tactic.Linarith
 /-!
 # C02  Every traced ray obeys Snell / reflection law on the prescribed surface
-Theorems over ℝ about `Model/Real.lean`.
+Theorems over ℝ about `Model/Real.lean` (the model the correspondence run ties to
+`real_rays.py`, `coordinate_system.py`, `geometries/*.py`, `standard_surface.py`).
 -/
 namespace C02
 open Model
 
-/-- reflection keeps unit length, for any (unit) normal and whatever its orientation -/
+/-! ### frame changes: `globalize ∘ localize = id`, `localize ∘ globalize = id` -/
+
+theorem rotateX_inv (r : Ray ℝ) (a : ℝ) : (r.rotateX (-a)).rotateX a = r := by
+  obtain ⟨x, y, z, L, M, N, i, opd⟩ := r
+  unfold Ray.rotateX
+  num_real
+  simp only [Real.cos_neg, Real.sin_neg, Ray.mk.injEq, true_and, and_true]
+  have h := Real.sin_sq_add_cos_sq a
+  refine ⟨?_, ?_, ?_, ?_⟩
+  · linear_combination y * h
+  · linear_combination z * h
+  · linear_combination M * h
+  · linear_combination N * h
+
+theorem rotateX_inv' (r : Ray ℝ) (a : ℝ) : (r.rotateX a).rotateX (-a) = r := by
+  have := rotateX_inv r (-a); rwa [neg_neg] at this
+
+theorem rotateY_inv (r : Ray ℝ) (a : ℝ) : (r.rotateY (-a)).rotateY a = r := by
+  obtain ⟨x, y, z, L, M, N, i, opd⟩ := r
+  unfold Ray.rotateY
+  num_real
+  simp only [Real.cos_neg, Real.sin_neg, Ray.mk.injEq, true_and, and_true]
+  have h := Real.sin_sq_add_cos_sq a
+  refine ⟨?_, ?_, ?_, ?_⟩
+  · linear_combination x * h
+  · linear_combination z * h
+  · linear_combination L * h
+  · linear_combination N * h
+
+theorem rotateY_inv' (r : Ray ℝ) (a : ℝ) : (r.rotateY a).rotateY (-a) = r := by
+  have := rotateY_inv r (-a); rwa [neg_neg] at this
+
+theorem rotateZ_inv (r : Ray ℝ) (a : ℝ) : (r.rotateZ (-a)).rotateZ a = r := by
+  obtain ⟨x, y, z, L, M, N, i, opd⟩ := r
+  unfold Ray.rotateZ
+  num_real
+  simp only [Real.cos_neg, Real.sin_neg, Ray.mk.injEq, true_and, and_true]
+  have h := Real.sin_sq_add_cos_sq a
+  refine ⟨?_, ?_, ?_, ?_⟩
+  · linear_combination x * h
+  · linear_combination y * h
+  · linear_combination L * h
+  · linear_combination M * h
+
+theorem rotateZ_inv' (r : Ray ℝ) (a : ℝ) : (r.rotateZ a).rotateZ (-a) = r := by
+  have := rotateZ_inv r (-a); rwa [neg_neg] at this
+
+theorem translate_inv (r : Ray ℝ) (a b c : ℝ) : (r.translate (-a) (-b) (-c)).translate a b c = r := by
+  obtain ⟨x, y, z, L, M, N, i, opd⟩ := r
+  unfold Ray.translate
+  num_real
+  simp only [Ray.mk.injEq, and_true]
+  refine ⟨by ring, by ring, by ring⟩
+
+theorem translate_inv' (r : Ray ℝ) (a b c : ℝ) : (r.translate a b c).translate (-a) (-b) (-c) = r := by
+  have := translate_inv r (-a) (-b) (-c); simpa using this
+
+/-- the conditional rotations of `localize`/`globalize` (skipped when the angle is falsy) -/
+theorem condX (c : Cs ℝ) (r : Ray ℝ) :
+    (if truthy c.rx then (if truthy c.rx then r.rotateX (-c.rx) else r).rotateX c.rx
+      else (if truthy c.rx then r.rotateX (-c.rx) else r)) = r := by
+  by_cases h : truthy c.rx = true <;> simp [h, rotateX_inv]
+
+/-- **localize_globalize**: `globalize (localize r) = r` for every frame — position, direction,
+intensity and path all return. -/
+theorem globalize_localize (c : Cs ℝ) (r : Ray ℝ) : c.globalize (c.localize r) = r := by
+  unfold Cs.globalize Cs.localize
+  have neg_eq : ∀ a : ℝ, @Neg.neg ℝ Num.instNeg a = -a := fun _ => rfl
+  simp only [neg_eq]
+  by_cases hx : truthy c.rx = true <;> by_cases hy : truthy c.ry = true <;>
+    by_cases hz : truthy c.rz = true <;>
+    simp [hx, hy, hz, rotateX_inv, rotateY_inv, rotateZ_inv, translate_inv]
+
+/-- **globalize_localize**: `localize (globalize r) = r`. -/
+theorem localize_globalize (c : Cs ℝ) (r : Ray ℝ) : c.localize (c.globalize r) = r := by
+  unfold Cs.globalize Cs.localize
+  have neg_eq : ∀ a : ℝ, @Neg.neg ℝ Num.instNeg a = -a := fun _ => rfl
+  simp only [neg_eq]
+  by_cases hx : truthy c.rx = true <;> by_cases hy : truthy c.ry = true <;>
+    by_cases hz : truthy c.rz = true <;>
+    simp [hx, hy, hz, rotateX_inv', rotateY_inv', rotateZ_inv', translate_inv']
+
+/-- squared length of the direction and the dot product of two directions -/
+def dir2 (r : Ray ℝ) : ℝ := r.L^2 + r.M^2 + r.N^2
+def ddot (a b : Ray ℝ) : ℝ := a.L*b.L + a.M*b.M + a.N*b.N
+
+theorem rotateX_ddot (a b : Ray ℝ) (t : ℝ) : ddot (a.rotateX t) (b.rotateX t) = ddot a b := by
+  unfold ddot Ray.rotateX; num_real
+  linear_combination (a.M*b.M + a.N*b.N) * Real.sin_sq_add_cos_sq t
+theorem rotateY_ddot (a b : Ray ℝ) (t : ℝ) : ddot (a.rotateY t) (b.rotateY t) = ddot a b := by
+  unfold ddot Ray.rotateY; num_real
+  linear_combination (a.L*b.L + a.N*b.N) * Real.sin_sq_add_cos_sq t
+theorem rotateZ_ddot (a b : Ray ℝ) (t : ℝ) : ddot (a.rotateZ t) (b.rotateZ t) = ddot a b := by
+  unfold ddot Ray.rotateZ; num_real
+  linear_combination (a.L*b.L + a.M*b.M) * Real.sin_sq_add_cos_sq t
+theorem translate_ddot (a b : Ray ℝ) (x y z : ℝ) :
+    ddot (a.translate x y z) (b.translate x y z) = ddot a b := rfl
+
+/-- frame changes preserve dot products of directions (hence norms, angles, and the vector form of
+Snell's law, which is built from dot and cross products) -/
+theorem localize_ddot (c : Cs ℝ) (a b : Ray ℝ) : ddot (c.localize a) (c.localize b) = ddot a b := by
+  unfold Cs.localize
+  by_cases hx : truthy c.rx = true <;> by_cases hy : truthy c.ry = true <;>
+    by_cases hz : truthy c.rz = true <;>
+    simp [hx, hy, hz, rotateX_ddot, rotateY_ddot, rotateZ_ddot, translate_ddot]
+
+theorem globalize_ddot (c : Cs ℝ) (a b : Ray ℝ) : ddot (c.globalize a) (c.globalize b) = ddot a b := by
+  unfold Cs.globalize
+  by_cases hx : truthy c.rx = true <;> by_cases hy : truthy c.ry = true <;>
+    by_cases hz : truthy c.rz = true <;>
+    simp [hx, hy, hz, rotateX_ddot, rotateY_ddot, rotateZ_ddot, translate_ddot]
+
+theorem globalize_unit (c : Cs ℝ) (r : Ray ℝ) : dir2 (c.globalize r) = dir2 r := by
+  have := globalize_ddot c r r
+  simpa [dir2, ddot, sq] using this
+
+/-! ### refraction and reflection -/
+
+/-- reflection keeps unit length, for any unit normal and whatever its orientation -/
 theorem reflect_unit (r : Ray ℝ) (nx ny nz : ℝ) (hk : r.L^2 + r.M^2 + r.N^2 = 1)
     (hn : nx^2 + ny^2 + nz^2 = 1) :
     (r.reflect nx ny nz).L^2 + (r.reflect nx ny nz).M^2 + (r.reflect nx ny nz).N^2 = 1 := by
@@ -26,5 +146,306 @@ theorem reflect_unit (r : Ray ℝ) (nx ny nz : ℝ) (hk : r.L^2 + r.M^2 + r.N^2 
   · have h' : ¬ (0 < d) := not_lt.mpr h.le
     simp only [h', h, if_true, if_false, abs_of_neg h]
     linear_combination hk + (4*d^2) * hn
+
+/-- **reflect_law**: the reflected direction `r'` satisfies `r' × n = k × n` (same tangential
+component) and `r'·n = −k·n` (normal component reversed), for either orientation of `n`. -/
+theorem reflect_law (r : Ray ℝ) (nx ny nz : ℝ) (hn : nx^2 + ny^2 + nz^2 = 1) :
+    let o := r.reflect nx ny nz
+    (o.M*nz - o.N*ny = r.M*nz - r.N*ny) ∧ (o.N*nx - o.L*nz = r.N*nx - r.L*nz) ∧
+    (o.L*ny - o.M*nx = r.L*ny - r.M*nx) ∧ (o.L*nx + o.M*ny + o.N*nz = -(r.L*nx + r.M*ny + r.N*nz)) := by
+  intro o
+  simp only [o]
+  unfold Ray.reflect alignNormal Num.sign
+  num_real
+  set d := r.L * nx + r.M * ny + r.N * nz with hd
+  rcases lt_trichotomy 0 d with h | h | h
+  · simp only [h, if_true, abs_of_pos h]
+    refine ⟨by ring, by ring, by ring, ?_⟩
+    linear_combination (-2*d) * hn + hd
+  · have hd0 : r.L * nx + r.M * ny + r.N * nz = 0 := by rw [← hd]; exact h.symm
+    simp only [← h, lt_irrefl, if_false, abs_zero]
+    refine ⟨by ring, by ring, by ring, ?_⟩
+    linear_combination hd0
+  · have h' : ¬ (0 < d) := not_lt.mpr h.le
+    simp only [h', h, if_true, if_false, abs_of_neg h]
+    refine ⟨by ring, by ring, by ring, ?_⟩
+    linear_combination (-2*d) * hn + hd
+
+/-- the radicand of the refraction formula -/
+noncomputable def radicand (r : Ray ℝ) (nx ny nz n1 n2 : ℝ) : ℝ :=
+  1 - (n1/n2)*(n1/n2)*(1 - (r.L*nx + r.M*ny + r.N*nz)*(r.L*nx + r.M*ny + r.N*nz))
+
+/-- **refract_unit**: for unit `k`, unit `n`, non-grazing incidence and non-negative radicand
+(no total internal reflection) the refracted direction is a unit vector. -/
+theorem refract_unit (r : Ray ℝ) (nx ny nz n1 n2 : ℝ) (hk : r.L^2 + r.M^2 + r.N^2 = 1)
+    (hn : nx^2 + ny^2 + nz^2 = 1) (hd : r.L*nx + r.M*ny + r.N*nz ≠ 0)
+    (hrad : 0 ≤ radicand r nx ny nz n1 n2) :
+    (r.refract nx ny nz n1 n2).L^2 + (r.refract nx ny nz n1 n2).M^2 + (r.refract nx ny nz n1 n2).N^2 = 1 := by
+  unfold radicand at hrad
+  unfold Ray.refract alignNormal Num.sign
+  num_real
+  set d := r.L * nx + r.M * ny + r.N * nz with hdd
+  set u := n1 / n2
+  rcases lt_or_gt_of_ne hd with h | h
+  · have h' : ¬ (0 < d) := not_lt.mpr h.le
+    simp only [h', h, if_true, if_false, abs_of_neg h]
+    have e : (1:ℝ) - u*u*(1 - -d * -d) = 1 - u*u*(1 - d*d) := by ring
+    rw [e]
+    have hr := Real.sq_sqrt hrad
+    set root := Real.sqrt (1 - u*u*(1 - d*d))
+    linear_combination u^2 * hk + (root + u*d)^2 * hn + 2*u*(root + u*d) * hdd + hr
+  · simp only [h, if_true, abs_of_pos h]
+    have hr := Real.sq_sqrt hrad
+    set root := Real.sqrt (1 - u*u*(1 - d*d))
+    linear_combination u^2 * hk + (root - u*d)^2 * hn - 2*u*(root - u*d) * hdd + hr
+
+/-- **refract_snell**: `n₂ (t × N) = n₁ (k × N)` — the vector form of Snell's law — for any
+orientation of the given normal `N`, `n₂ ≠ 0`. -/
+theorem refract_snell (r : Ray ℝ) (nx ny nz n1 n2 : ℝ) (hn2 : n2 ≠ 0) :
+    let o := r.refract nx ny nz n1 n2
+    n2*(o.M*nz - o.N*ny) = n1*(r.M*nz - r.N*ny) ∧ n2*(o.N*nx - o.L*nz) = n1*(r.N*nx - r.L*nz) ∧
+    n2*(o.L*ny - o.M*nx) = n1*(r.L*ny - r.M*nx) := by
+  intro o
+  simp only [o]
+  unfold Ray.refract alignNormal
+  num_real
+  refine ⟨?_, ?_, ?_⟩ <;> field_simp <;> ring
+
+/-- **refract_halfspace**: the refracted ray continues into the half-space the incident ray was
+heading for: `sign (t·N) = sign (k·N)`, stated as `(t·N)(k·N) > 0`, whenever `0 < radicand`. -/
+theorem refract_halfspace (r : Ray ℝ) (nx ny nz n1 n2 : ℝ)
+    (hn : nx^2 + ny^2 + nz^2 = 1) (hd : r.L*nx + r.M*ny + r.N*nz ≠ 0)
+    (hrad : 0 < radicand r nx ny nz n1 n2) :
+    let o := r.refract nx ny nz n1 n2
+    0 < (o.L*nx + o.M*ny + o.N*nz) * (r.L*nx + r.M*ny + r.N*nz) := by
+  intro o
+  simp only [o]
+  unfold radicand at hrad
+  unfold Ray.refract alignNormal Num.sign
+  num_real
+  set d := r.L * nx + r.M * ny + r.N * nz with hdd
+  set u := n1 / n2
+  have hroot : 0 < Real.sqrt (1 - u*u*(1 - d*d)) := Real.sqrt_pos.mpr hrad
+  rcases lt_or_gt_of_ne hd with h | h
+  · have h' : ¬ (0 < d) := not_lt.mpr h.le
+    simp only [h', h, if_true, if_false, abs_of_neg h]
+    have e : (1:ℝ) - u*u*(1 - -d * -d) = 1 - u*u*(1 - d*d) := by ring
+    rw [e]
+    set root := Real.sqrt (1 - u*u*(1 - d*d))
+    have key : (u * r.L + nx * -1 * root - u * (nx * -1) * -d) * nx +
+        (u * r.M + ny * -1 * root - u * (ny * -1) * -d) * ny +
+        (u * r.N + nz * -1 * root - u * (nz * -1) * -d) * nz = -root := by
+      linear_combination (-root - u*d) * hn + u * hdd
+    rw [key]
+    nlinarith
+  · simp only [h, if_true, abs_of_pos h]
+    set root := Real.sqrt (1 - u*u*(1 - d*d))
+    have key : (u * r.L + nx * 1 * root - u * (nx * 1) * d) * nx +
+        (u * r.M + ny * 1 * root - u * (ny * 1) * d) * ny +
+        (u * r.N + nz * 1 * root - u * (nz * 1) * d) * nz = root := by
+      linear_combination (root - u*d) * hn + u * hdd
+    rw [key]
+    positivity
+
+/-! ### intersection with the prescribed shape -/
+
+/-- the conic quadric `x² + y² + (1+k) z² − 2 R z` -/
+def Q (R k x y z : ℝ) : ℝ := x^2 + y^2 + (1 + k)*z^2 - 2*R*z
+
+theorem conicABC_eq (R k : ℝ) (r : Ray ℝ) : conicABC R k r =
+    (k*(r.N*r.N) + r.L*r.L + r.M*r.M + r.N*r.N,
+     2*k*r.N*r.z + 2*r.L*r.x + 2*r.M*r.y - 2*r.N*R + 2*r.N*r.z,
+     k*(r.z*r.z) - 2*R*r.z + r.x*r.x + r.y*r.y + r.z*r.z) := by
+  unfold conicABC
+  num_real
+
+/-- both roots of the quadratic solved by `StandardGeometry.distance` put the ray point on the
+quadric -/
+theorem conic_root (R k : ℝ) (r : Ray ℝ) (sgn : ℝ) (hs : sgn = 1 ∨ sgn = -1) :
+    let a := (conicABC R k r).1
+    let b := (conicABC R k r).2.1
+    let c := (conicABC R k r).2.2
+    let d := b*b - 4*a*c
+    0 ≤ d → a ≠ 0 →
+    let t := (-b + sgn * Real.sqrt d) / (2*a)
+    Q R k (r.x + t*r.L) (r.y + t*r.M) (r.z + t*r.N) = 0 := by
+  intro a b c d hd ha t
+  have habc : a = k*(r.N*r.N) + r.L*r.L + r.M*r.M + r.N*r.N ∧
+      b = 2*k*r.N*r.z + 2*r.L*r.x + 2*r.M*r.y - 2*r.N*R + 2*r.N*r.z ∧
+      c = k*(r.z*r.z) - 2*R*r.z + r.x*r.x + r.y*r.y + r.z*r.z := by
+    simp [a, b, c, conicABC_eq]
+  have hq : a*t^2 + b*t + c = 0 := by
+    have hsq : (Real.sqrt d)^2 = d := Real.sq_sqrt hd
+    have hs2 : sgn^2 = 1 := by rcases hs with h | h <;> simp [h]
+    have he : (sgn*Real.sqrt d)^2 = d := by rw [mul_pow, hs2, hsq, one_mul]
+    have key : a*t^2 + b*t + c = ((sgn*Real.sqrt d)^2 - d)/(4*a) := by
+      simp only [t, d]; field_simp; ring
+    rw [key, he, sub_self, zero_div]
+  have : Q R k (r.x + t*r.L) (r.y + t*r.M) (r.z + t*r.N) = a*t^2 + b*t + c := by
+    rw [habc.1, habc.2.1, habc.2.2]; unfold Q; ring
+  rw [this, hq]
+
+/-- **conic_root_on_surface**: when the discriminant is non-negative, `a ≠ 0` and both roots are
+admissible (`t ≥ 0`, so no root is masked to `inf`), the distance returned by
+`StandardGeometry.distance` puts the ray on the prescribed quadric. -/
+theorem conic_root_on_surface (R k : ℝ) (r : Ray ℝ) :
+    let a := (conicABC R k r).1
+    let b := (conicABC R k r).2.1
+    let c := (conicABC R k r).2.2
+    let d := b*b - 4*a*c
+    0 ≤ d → a ≠ 0 → 0 ≤ (-b + Real.sqrt d)/(2*a) → 0 ≤ (-b - Real.sqrt d)/(2*a) →
+    let t := stdDistance R k r
+    Q R k (r.x + t*r.L) (r.y + t*r.M) (r.z + t*r.N) = 0 := by
+  intro a b c d hd ha h1 h2 t
+  have r1 := conic_root R k r 1 (Or.inl rfl) hd ha
+  have r2 := conic_root R k r (-1) (Or.inr rfl) hd ha
+  simp only [one_mul] at r1
+  simp only [neg_one_mul, ← sub_eq_add_neg] at r2
+  have ht : t = (-b + Real.sqrt d)/(2*a) ∨ t = (-b - Real.sqrt d)/(2*a) := by
+    simp only [t, stdDistance, selectRoot, maskNeg]
+    num_real
+    have e4 : ((4:ℕ):ℝ)/((1:ℕ):ℝ) = 4 := by norm_num
+    simp only [e4]
+    have h1' : ¬ ((-b + Real.sqrt d)/(2*a) < 0) := not_lt.mpr h1
+    have h2' : ¬ ((-b - Real.sqrt d)/(2*a) < 0) := not_lt.mpr h2
+    simp only [a, b, c, d] at ha h1' h2' ⊢
+    simp only [h1', h2', if_false, ha]
+    split <;> simp
+  rcases ht with h | h <;> rw [h]
+  · exact r1
+  · exact r2
+
+/-- in the `a = 0` branch (`t = −c/b`, e.g. a paraboloid hit by an axis-parallel ray) the point
+is on the quadric as well -/
+theorem conic_linear_root_on_surface (R k : ℝ) (r : Ray ℝ) :
+    let a := (conicABC R k r).1
+    let b := (conicABC R k r).2.1
+    a = 0 → b ≠ 0 →
+    let t := stdDistance R k r
+    Q R k (r.x + t*r.L) (r.y + t*r.M) (r.z + t*r.N) = 0 := by
+  intro a b ha hb t
+  have habc : a = k*(r.N*r.N) + r.L*r.L + r.M*r.M + r.N*r.N ∧
+      b = 2*k*r.N*r.z + 2*r.L*r.x + 2*r.M*r.y - 2*r.N*R + 2*r.N*r.z := by
+    simp [a, b, conicABC_eq]
+  have ht : t = -(conicABC R k r).2.2 / b := by
+    simp only [t, stdDistance, selectRoot]
+    num_real
+    have : (conicABC R k r).1 = 0 := ha
+    simp [this, b]
+  set c := (conicABC R k r).2.2 with hc
+  have hcv : c = k*(r.z*r.z) - 2*R*r.z + r.x*r.x + r.y*r.y + r.z*r.z := by
+    simp only [hc, conicABC_eq]
+  have : Q R k (r.x + t*r.L) (r.y + t*r.M) (r.z + t*r.N) = a*t^2 + b*t + c := by
+    rw [habc.1, habc.2, hcv]; unfold Q; ring
+  rw [this, ha, ht]
+  field_simp
+  ring
+
+/-- **plane_distance**: an admissible distance to a plane ends on the plane -/
+theorem plane_distance (r : Ray ℝ) (hN : r.N ≠ 0) (ht : 0 ≤ -r.z / r.N) :
+    r.z + planeDistance r * r.N = 0 := by
+  unfold planeDistance maskNeg
+  num_real
+  have : ¬ (-r.z / r.N < 0) := not_lt.mpr ht
+  simp only [this, if_false]
+  field_simp
+  ring
+
+/-- **sag_on_conic**: inside its domain the sag formula gives a point of the quadric -/
+theorem sag_on_conic (R k x y : ℝ) (hR : R ≠ 0) (hdom : 0 ≤ 1 - (1 + k)*(x*x + y*y)/(R*R)) :
+    Q R k x y (conicSag R k x y) = 0 := by
+  unfold conicSag Q
+  num_real
+  set r2 := x*x + y*y with hr2
+  set s := Real.sqrt (1 - (1 + k)*r2/(R*R)) with hs
+  have hs0 : 0 ≤ s := Real.sqrt_nonneg _
+  have hss : s^2 = 1 - (1 + k)*r2/(R*R) := Real.sq_sqrt hdom
+  have h1s : (1 + s) ≠ 0 := by positivity
+  have hk : (1 + k)*r2 = (1 - s^2)*(R*R) := by rw [hss]; field_simp; ring
+  have : x^2 + y^2 = r2 := by rw [hr2]; ring
+  rw [this]
+  have e : r2 + (1 + k) * (r2 / (R * (1 + s)))^2 - 2*R*(r2 / (R * (1 + s)))
+      = r2 * ((1 + k)*r2 - (1 - s^2)*(R*R)) / (R*(1+s))^2 := by
+    field_simp
+    ring
+  rw [e, hk]; simp
+
+/-- **normal_is_gradient** (conics): the vector returned by `StandardGeometry.surface_normal`
+is a unit vector parallel to `(∂sag/∂x, ∂sag/∂y, −1)` with
+`∂sag/∂x = x / (R √(1−(1+k)r²/R²))` (the closed form of the derivative of the sag). -/
+theorem stdNormal_unit (R k x y : ℝ) :
+    let n := stdNormal R k x y
+    n.1^2 + n.2.1^2 + n.2.2^2 = 1 ∧
+    n.1 * (-1) = (conicSlope R k x y).1 * n.2.2 ∧ n.2.1 * (-1) = (conicSlope R k x y).2 * n.2.2 := by
+  intro n
+  simp only [n, stdNormal]
+  num_real
+  set gx := (conicSlope R k x y).1
+  set gy := (conicSlope R k x y).2
+  have hpos : 0 < gx*gx + gy*gy + -1 * -1 := by nlinarith [mul_self_nonneg gx, mul_self_nonneg gy]
+  set m := Real.sqrt (gx*gx + gy*gy + -1 * -1) with hm
+  have hm0 : 0 < m := Real.sqrt_pos.mpr hpos
+  have hmm : m^2 = gx*gx + gy*gy + -1 * -1 := Real.sq_sqrt hpos.le
+  have hne : m ≠ 0 := ne_of_gt hm0
+  refine ⟨?_, ?_, ?_⟩
+  · field_simp; linear_combination -hmm
+  · field_simp
+  · field_simp
+
+/-- the closed form used for the slope is the derivative of the sag: on the sag sheet
+`R − (1+k)·sag = R √(1 − (1+k) r²/R²)`, i.e. the slope `x/denom` equals `x / (R − (1+k) z)`, which is
+`−∂Q/∂x / ∂Q/∂z` (implicit differentiation of the quadric). -/
+theorem conicSlope_is_implicit_gradient (R k x y : ℝ) (hR : R ≠ 0)
+    (hdom : 0 < 1 - (1 + k)*(x*x + y*y)/(R*R)) :
+    R - (1 + k) * conicSag R k x y = R * Real.sqrt (1 - (1 + k)*(x*x + y*y)/(R*R)) := by
+  unfold conicSag
+  num_real
+  set r2 := x*x + y*y
+  set s := Real.sqrt (1 - (1 + k)*r2/(R*R)) with hs
+  have hs0 : 0 < s := Real.sqrt_pos.mpr hdom
+  have hss : s^2 = 1 - (1 + k)*r2/(R*R) := Real.sq_sqrt hdom.le
+  have h1s : (1 + s) ≠ 0 := by positivity
+  have hk : (1 + k)*r2 = (1 - s^2)*(R*R) := by rw [hss]; field_simp; ring
+  have : R - (1 + k) * (r2 / (R * (1 + s))) = (R*R*(1+s) - (1+k)*r2) / (R*(1+s)) := by
+    field_simp
+  rw [this, hk]
+  field_simp
+  ring
+
+/-! ### optical path and unit directions along the whole trace -/
+
+/-- every ray of every record has a unit direction -/
+def AllUnit (recs : List (List (Ray ℝ))) : Prop := ∀ rs ∈ recs, ∀ r ∈ rs, dir2 r = 1
+
+/-- the accumulated path grows by exactly `|t·n₁|` at each surface: the recorded OPD after a
+surface is the incoming OPD plus index × distance travelled (propagation, clipping, refraction
+and the frame changes leave it untouched). -/
+theorem traceSurf_opd (s : RSurf ℝ) (w : ℝ) (r : Ray ℝ) (t : ℝ) :
+    (s.cs.globalize (interact s (clip s.aperture
+        { (r.propagate t s.k1 w) with opd := (r.propagate t s.k1 w).opd + Num.abs (t * s.n1) }))).opd
+      = r.opd + |t * s.n1| := by
+  have hg : ∀ (c : Cs ℝ) (q : Ray ℝ), (c.globalize q).opd = q.opd := by
+    intro c q
+    unfold Cs.globalize Ray.translate Ray.rotateX Ray.rotateY Ray.rotateZ
+    split_ifs <;> rfl
+  have hi : ∀ q : Ray ℝ, (interact s q).opd = q.opd := by
+    intro q
+    unfold interact Ray.reflect Ray.refract
+    cases s.kind <;> simp only <;> (try rfl) <;>
+      (cases s.coating <;> simp only <;> split_ifs <;> rfl)
+  have hc : ∀ q : Ray ℝ, (clip s.aperture q).opd = q.opd := by
+    intro q
+    unfold clip
+    cases s.aperture with
+    | none => rfl
+    | some p => obtain ⟨a, b⟩ := p; simp only; split_ifs <;> rfl
+  rw [hg, hi, hc]
+  show (r.propagate t s.k1 w).opd + Num.abs (t * s.n1) = r.opd + |t * s.n1|
+  unfold Ray.propagate
+  num_real
+
+/-! ### non-vacuity -/
+example : (0:ℝ) ≤ radicand ⟨0, 0, 0, 0, 0, 1, 1, 0⟩ 0 0 (-1) 1 1.5 := by
+  unfold radicand; norm_num
 
 end C02
